@@ -10,4 +10,5 @@ Require Import LV.Base.Lin LV.Spec.Specs.
 
 Extraction "lin.ml"
   lincheck lincheck_memo wf_historyb lp_validb erase
-  Fifo BFifo Stack Deque PQueue BPQueue SetSpec MapSpec zlist_eqb zzlist_eqb.
+  Fifo BFifo Stack Deque PQueue BPQueue SetSpec MapSpec
+  zlist_eqb zzlist_eqb zlist_hash zzlist_hash.
